@@ -192,6 +192,74 @@ def build(spec, lazy=False):
     return ds
 
 
+# ------------------------------------------------------------------------------------------------ several datasets, one process
+def fresh_pydap():
+    """forget every imported pydap module: the next import builds pydap's module-level state anew, as a new server
+    process would (numpy, webob stay).  A history of requests starts here, so that it can be replayed on its own."""
+    import sys
+    for m in [m for m in sys.modules if m == "pydap" or m.startswith("pydap.")]:
+        del sys.modules[m]
+
+
+def gen_csv_spec(rng, stem):
+    """a CSV file as the CSV handler declares it: dataset <file name, quoted>, one Sequence `sequence`, unquoted cells are
+    Float64 and quoted cells String (csv.QUOTE_NONNUMERIC); at least one record"""
+    cols = [(nm, rng.choice(["f8", "f8", "U"])) for nm in ["i", "j", "f"][: rng.randint(1, 3)]]
+    rows = [[gen_values(rng, dt, 1)[0] if dt == "U" else rng.choice([rng.randint(-60, 60), rng.randint(0, 9), gen_values(rng, "i4", 1)[0]])
+             for (_, dt) in cols] for _ in range(rng.choice([1, 2, 3, 5, 8]))]
+    return {"name": stem + "%2Ecsv", "vars": [{"k": "sq", "name": "sequence", "cols": cols, "rows": rows}]}
+
+
+def write_csv(spec, directory):
+    import csv
+    import os
+    path = os.path.join(directory, spec["name"].replace("%2E", "."))
+    sq = spec["vars"][0]
+    with open(path, "w", newline="") as f:
+        w = csv.writer(f, quoting=csv.QUOTE_NONNUMERIC)
+        w.writerow([n for n, _ in sq["cols"]])
+        for r in sq["rows"]:
+            w.writerow(r)
+    return path
+
+
+BACKENDS = ["mem", "lazy", "ranged", "csv"]
+
+
+def gen_family(rng):
+    """[(key, backend, spec)]: 2..4 datasets for handlers living in one process.  In-memory and lazy datasets carry the same
+    dataset name and draw their variables from the same small pool of names, each with its own types, shapes and record
+    counts (ids such as s.i, a, st.p, g.v recur with other types); CSV files are all served as Sequence `sequence`."""
+    k = rng.choice([2, 2, 3, 4])
+    out = []
+    if rng.random() < 0.35:
+        for i in range(k):
+            out.append(("h%d" % i, "csv", gen_csv_spec(rng, "abct"[i])))
+        return out
+    name = rng.choice(["d", "data", "a1"])
+    for i in range(k):
+        for _ in range(50):
+            spec = gen_dataset(rng)
+            if any(v["k"] == "sq" and v["rows"] for v in spec["vars"]):
+                break
+        spec["name"] = name
+        out.append(("h%d" % i, rng.choice(["mem", "lazy", "lazy", "ranged"]), spec))
+    return out
+
+
+def build_app(backend, spec, directory=None, wrap=None):
+    """the WSGI application serving `spec` from `backend`"""
+    if backend == "csv":
+        from pydap.handlers.csv import CSVHandler
+        return CSVHandler(write_csv(spec, directory))
+    from pydap.handlers.lib import BaseHandler
+    return BaseHandler(build(spec, lazy={"mem": False, "lazy": "plain", "ranged": "ranged"}[backend]))
+
+
+def request_path(backend, spec, ext):
+    return "/%s.%s" % (spec["name"].replace("%2E", ".") if backend == "csv" else "d", ext)
+
+
 # ------------------------------------------------------------------------------------------------ valid CEs
 def gen_hs(rng, shape):
     """valid hyperslab: text and the python slices.  Valid = what check_hyperslab accepts: at most one index per axis
